@@ -38,6 +38,9 @@ type MultiScenario struct {
 	Sessions int          `json:"sessions"`
 	Events   []MultiEvent `json:"events"`
 	Tail     int          `json:"tail"`
+	// Burst: consecutive events of different sessions are injected together and the sessions
+	// process them concurrently (one quiescence point per group instead of one per event)
+	Burst bool `json:"burst"`
 }
 
 type sctl struct {
@@ -185,6 +188,7 @@ func runMulti(sc MultiScenario, emit func(Line)) {
 			col.c = append(col.c, b)
 			col.mu.Unlock()
 		}, nil)
+		c.sn.YieldOnWrite = sc.Burst
 		ctls[k] = c
 		conns[k] = c.broker
 	}
@@ -227,27 +231,10 @@ func runMulti(sc MultiScenario, emit func(Line)) {
 			}
 		}
 	}
-	for _, e := range sc.Events {
-		if e.E == "adv" {
-			advance(e.N)
-			continue
-		}
-		if e.E == "shutdown" {
-			cancel()
-			synctest.Wait()
-			for _, c := range ctls {
-				emit(c.snapshot(TraceEv{T: "Shutdown"}, now()))
-			}
-			continue
-		}
+	// inject prepares one event: it returns the trace event and the function that hands the
+	// bytes to the session (nil: the session has ended, the event is skipped)
+	prepare := func(e MultiEvent) (TraceEv, func()) {
 		c := ctls[e.S%n]
-		if c.ended() {
-			l := c.snapshot(TraceEv{T: "Skip"}, now())
-			l.Skipped = true
-			emit(l)
-			others(e.S % n)
-			continue
-		}
 		switch e.E {
 		case "cl", "clraw":
 			var d []byte
@@ -260,9 +247,7 @@ func runMulti(sc MultiScenario, emit func(Line)) {
 			if ev.P.T == "JUNK" {
 				ev.T = "CRaw"
 			}
-			c.sn.Inject(d)
-			synctest.Wait()
-			emit(c.snapshot(ev, now()))
+			return ev, func() { c.sn.Inject(d) }
 		case "br", "brraw":
 			var d []byte
 			if e.E == "br" {
@@ -276,17 +261,73 @@ func runMulti(sc MultiScenario, emit func(Line)) {
 					ev = TraceEv{T: "B", M: absmap.MqFromPkt(p)}
 				}
 			}
-			c.broker.Inject(d)
-			synctest.Wait()
-			emit(c.snapshot(ev, now()))
+			return ev, func() { c.broker.Inject(d) }
 		case "breof":
-			c.broker.InjectEOF()
-			synctest.Wait()
-			emit(c.snapshot(TraceEv{T: "BEof"}, now()))
+			return TraceEv{T: "BEof"}, func() { c.broker.InjectEOF() }
 		default:
 			panic("unknown event " + e.E)
 		}
-		others(e.S % n)
+	}
+	for i := 0; i < len(sc.Events); i++ {
+		e := sc.Events[i]
+		if e.E == "adv" {
+			advance(e.N)
+			continue
+		}
+		if e.E == "shutdown" {
+			cancel()
+			synctest.Wait()
+			for _, c := range ctls {
+				emit(c.snapshot(TraceEv{T: "Shutdown"}, now()))
+			}
+			continue
+		}
+		// the group of events handled before the next quiescence point: one event, or (Burst) the
+		// following events as long as each belongs to another session
+		group := []MultiEvent{e}
+		if sc.Burst {
+			in := map[int]bool{e.S % n: true}
+			for i+1 < len(sc.Events) {
+				nx := sc.Events[i+1]
+				if nx.E == "adv" || nx.E == "shutdown" || in[nx.S%n] {
+					break
+				}
+				in[nx.S%n] = true
+				group = append(group, nx)
+				i++
+			}
+		}
+		evs := make([]TraceEv, len(group))
+		skipped := make([]bool, len(group))
+		var fire []func()
+		for j, g := range group {
+			if ctls[g.S%n].ended() {
+				skipped[j] = true
+				continue
+			}
+			ev, f := prepare(g)
+			evs[j] = ev
+			fire = append(fire, f)
+		}
+		for _, f := range fire {
+			f()
+		}
+		synctest.Wait()
+		for j, g := range group {
+			c := ctls[g.S%n]
+			if skipped[j] {
+				l := c.snapshot(TraceEv{T: "Skip"}, now())
+				l.Skipped = true
+				emit(l)
+			} else {
+				emit(c.snapshot(evs[j], now()))
+			}
+		}
+		for _, g := range group {
+			if len(group) == 1 {
+				others(g.S % n)
+			}
+		}
 	}
 	if sc.Tail > 0 {
 		advance(sc.Tail)
